@@ -398,6 +398,43 @@ func ruleC11b(c *Ctx) {
 		c.undecided("-", "(*Container).Add", "-", "not found")
 		return
 	}
+	// the function that does the adding: the one that appends its *WebService parameter to the list (Add itself, or
+	// a helper Add shares with another way of adding)
+	appendsParam := func(fn *ssa.Function) bool {
+		found := false
+		for _, a := range p.fieldAccesses(fn) {
+			if a.Kind != "store" || a.Owner != "Container" || a.Field.Name() != "webServices" {
+				continue
+			}
+			call, ok := strip(a.Instr.(*ssa.Store).Val).(*ssa.Call)
+			if !ok || !isBuiltinCall(call, "append") || len(call.Call.Args) != 2 {
+				continue
+			}
+			if sl, ok := call.Call.Args[1].(*ssa.Slice); ok {
+				if arr, ok := sl.X.(*ssa.Alloc); ok {
+					for _, r := range referrers(arr) {
+						if ia, ok := r.(*ssa.IndexAddr); ok {
+							for _, rr := range referrers(ia) {
+								if st, ok := rr.(*ssa.Store); ok && st.Addr == ssa.Value(ia) {
+									if prm, ok := strip(st.Val).(*ssa.Parameter); ok && isPtrToRestful(prm.Type(), "WebService") {
+										found = true
+									}
+								}
+							}
+						}
+					}
+				}
+			}
+		}
+		return found
+	}
+	if !appendsParam(add) {
+		for _, e := range p.callGraph().Out[add] {
+			if e.Kind == EdgeStatic && recvTypeName(e.Callee) == "Container" && appendsParam(e.Callee) {
+				add = e.Callee
+			}
+		}
+	}
 	name := p.fname(add)
 	var svc *ssa.Parameter
 	for _, prm := range add.Params {
@@ -584,6 +621,46 @@ func ruleC11d(c *Ctx) {
 			n++
 			name := p.fname(e.Caller)
 			construct := "argument of " + p.fname(g) + " (which scans Container." + scanned.Name() + ")"
+			// called repeatedly (in a loop): what one call registered must be in the scanned list before the next call
+			// asks "is this pattern registered already" - the service is appended between two calls on every path
+			if ccyc := blocksOnCycles(e.Caller); ccyc[e.Site.Block()] && g.Name() != e.Caller.Name() {
+				appended := func(i ssa.Instruction) bool {
+					st, ok := i.(*ssa.Store)
+					if !ok {
+						return false
+					}
+					fa, ok := st.Addr.(*ssa.FieldAddr)
+					return ok && fieldOfAddr(fa) == scanned
+				}
+				// search: from the call back to the call without passing a store to the list
+				again := false
+				seenB := map[*ssa.BasicBlock]bool{}
+				var walk func(b *ssa.BasicBlock, from int) bool
+				walk = func(b *ssa.BasicBlock, from int) bool {
+					for k := from; k < len(b.Instrs); k++ {
+						if appended(b.Instrs[k]) {
+							return false
+						}
+						if b.Instrs[k] == e.Site && !(b == e.Site.Block() && from == indexInBlock(e.Site)+1 && k < from) {
+							return true
+						}
+					}
+					for _, sc := range b.Succs {
+						if seenB[sc] {
+							continue
+						}
+						seenB[sc] = true
+						if walk(sc, 0) {
+							return true
+						}
+					}
+					return false
+				}
+				again = walk(e.Site.Block(), indexInBlock(e.Site)+1)
+				c.check(!again, name, "what "+p.fname(g)+" registered is in Container."+scanned.Name()+" before it is called again", p.ipos(e.Site),
+					"every path from this call back to it appends to the list the helper scans",
+					"the helper is called again before the service it has just registered was appended to Container."+scanned.Name()+": its scan cannot see that registration, so two services that share a mux pattern are both registered and http.ServeMux panics (or the second one is taken for registered and is not)")
+			}
 			l, isElem := elementOfContainerList(p, arg)
 			if !isElem || fieldOfAddr(l.X.(*ssa.FieldAddr)) != scanned {
 				c.ok(name, construct, p.ipos(e.Site), "the argument is not taken from the scanned list")
@@ -639,45 +716,107 @@ func ruleC11e(c *Ctx) {
 		return
 	}
 	cg := p.callGraph()
-	// does Remove replace the mux?
-	replaces := false
-	for _, a := range p.fieldAccesses(rm) {
-		if a.Kind == "store" && a.Field.Name() == "ServeMux" {
-			replaces = true
+	// the functions that install another mux on an existing container (Remove, a helper it delegates to, a new RemoveAll)
+	var rebuilders []*ssa.Function
+	for _, fn := range p.SrcFunc {
+		if strings.HasPrefix(fn.Name(), "init") {
+			continue // package initialisation gives the default container its mux: nothing is registered yet
+		}
+		for _, a := range p.fieldAccesses(fn) {
+			if a.Kind == "store" && a.Owner == "Container" && a.Field.Name() == "ServeMux" && !p.freshBase(a.Addr) {
+				rebuilders = append(rebuilders, fn)
+				break
+			}
 		}
 	}
-	if !replaces {
+	if len(rebuilders) == 0 {
 		c.triv(p.fname(rm), "Remove keeps the mux", p.pos(rm.Pos()), "nothing to replay")
 		return
 	}
-	replayed := cg.reach([]*ssa.Function{rm}, func(e Edge) bool { return e.Kind != EdgeStatic })
-	seen := map[*ssa.Function]bool{}
-	for _, reg := range muxRegistrations(p) {
-		if seen[reg.Fn] {
-			continue
-		}
-		if p.isRecordReplay(reg) {
-			continue // the replay itself
-		}
-		seen[reg.Fn] = true
-		// registrations on the container's own mux: receiver mux derives from Container.ServeMux or a mux parameter
-		top := topFunc(reg.Fn)
-		if recvTypeName(top) != "Container" {
-			continue
-		}
-		construct := "registrations by " + p.fname(reg.Fn) + " are replayed"
-		if replayed[reg.Fn] {
-			c.ok(p.fname(rm), construct, p.ipos(reg.Call), "reached from Remove's rebuild")
-		} else if ok, how, why := p.replayedByRecord(rm, reg); ok {
-			c.ok(p.fname(rm), construct, p.ipos(reg.Call), how)
-		} else {
-			msg := "Remove builds a new http.ServeMux and replays only what it reaches; patterns registered through " + p.fname(reg.Fn) + " are lost after any Remove"
-			if why != "" {
-				msg += " (" + why + ")"
+	// the flag "a service is registered on /" describes the installed mux: whoever installs a mux assigns the flag with it
+	for _, rb := range rebuilders {
+		var muxStores, flagStores []ssa.Instruction
+		for _, a := range p.fieldAccesses(rb) {
+			if a.Kind != "store" || a.Owner != "Container" {
+				continue
 			}
-			c.bad(p.fname(rm), "registrations by "+p.fname(reg.Fn)+" are not replayed", p.ipos(reg.Call), msg)
+			switch a.Field.Name() {
+			case "ServeMux":
+				muxStores = append(muxStores, a.Instr)
+			case "isRegisteredOnRoot":
+				flagStores = append(flagStores, a.Instr)
+			}
+		}
+		for _, ms := range muxStores {
+			together := false
+			for _, fs := range flagStores {
+				if alwaysTogether(ms, fs) {
+					together = true
+				}
+			}
+			c.check(together, p.fname(rb), "the root flag is assigned together with the mux it describes", p.ipos(ms),
+				"isRegisteredOnRoot is stored on the same paths as ServeMux",
+				p.fname(rb)+" installs another ServeMux but leaves isRegisteredOnRoot as it was: if a service had been registered on / the flag stays true, every later Add skips the mux registration, and the added services answer 404 through ServeHTTP while Dispatch reaches them")
 		}
 	}
+	for _, rb := range rebuilders {
+		replayed := cg.reach([]*ssa.Function{rb}, func(e Edge) bool { return e.Kind != EdgeStatic })
+		seen := map[*ssa.Function]bool{}
+		for _, reg := range muxRegistrations(p) {
+			if seen[reg.Fn] {
+				continue
+			}
+			if p.isRecordReplay(reg) {
+				continue // the replay itself
+			}
+			seen[reg.Fn] = true
+			// registrations on the container's own mux: receiver mux derives from Container.ServeMux or a mux parameter
+			top := topFunc(reg.Fn)
+			if recvTypeName(top) != "Container" {
+				continue
+			}
+			construct := "registrations by " + p.fname(reg.Fn) + " are replayed"
+			if replayed[reg.Fn] {
+				c.ok(p.fname(rb), construct, p.ipos(reg.Call), "reached from the rebuild")
+			} else if ok, how, why := p.replayedByRecord(rb, reg); ok {
+				c.ok(p.fname(rb), construct, p.ipos(reg.Call), how)
+			} else if hasServiceParam(reg.Fn) && emptiesServiceList(p, rb) {
+				c.ok(p.fname(rb), construct, p.ipos(reg.Call), "the rebuild leaves no WebService registered (the list is replaced by an empty one and nothing is appended): there is no service pattern to register again")
+			} else {
+				msg := p.fname(rb) + " installs a new http.ServeMux and replays only what it reaches; patterns registered through " + p.fname(reg.Fn) + " are lost after it ran"
+				if why != "" {
+					msg += " (" + why + ")"
+				}
+				c.bad(p.fname(rb), "registrations by "+p.fname(reg.Fn)+" are not replayed", p.ipos(reg.Call), msg)
+			}
+		}
+	}
+}
+
+func hasServiceParam(fn *ssa.Function) bool {
+	for _, prm := range fn.Params {
+		if isPtrToRestful(prm.Type(), "WebService") {
+			return true
+		}
+	}
+	return false
+}
+
+// emptiesServiceList: fn stores an empty list into Container.webServices and never a non-empty one.
+func emptiesServiceList(p *Program, fn *ssa.Function) bool {
+	empties, grows := false, false
+	for _, a := range p.fieldAccesses(fn) {
+		if a.Kind != "store" || a.Owner != "Container" || a.Field.Name() != "webServices" {
+			continue
+		}
+		v := a.Instr.(*ssa.Store).Val
+		if isNilConst(v) || isEmptySliceLiteral(v) {
+			empties = true
+		} else {
+			grows = true
+		}
+	}
+	return empties && !grows
 }
 
 func ruleC11f(c *Ctx) {
